@@ -104,6 +104,9 @@ STEP_POOL = [
     ("code-block", "atlas", q(A_PT, [BLOCK]), True, False),
     ("code-block-then-bad-body", "atlas", q(A_BAD_BODY, [BLOCK]), True, True),
     ("extended-md", "atlas", q(A_XMD, [XMD]), True, False),
+    ("extended-md-pt", "atlas", q(A_PT, [XMD]), True, False),
+    ("extended-md-then-bad-body", "atlas", q(A_BAD_BODY, [XMD]), True, True),
+    ("extended-md-cms", "cms_aod", q(C_PT, [XMD]), True, False),
     ("cms-plain", "cms_aod", q(C_PT), False, False),
     ("cms-declare-pt-int", "cms_aod", q(C_PT, [MU_INT]), True, False),
     ("cms-declare-pt-int-then-bad-md", "cms_aod", q(C_PT, [BAD_MD, MU_INT]), True, True),
@@ -116,6 +119,7 @@ PROBES = [
     ("atlas", q("Select(DS, lambda e: (e.Jets('AntiKt4').Select(lambda j: j.pt()).First(), e.Jets('AK10').Count() / 2))")),
     ("atlas", q(A_FUNC, [FUNC])), ("atlas", q(A_FUNC, [FUNC_V2])), ("atlas", q(A_MYJETS, [COLL])), ("atlas", q(A_MYJETS, [COLL_V2])),
     ("atlas", q(A_TRUTH)), ("cms_aod", q(C_TRK)), ("cms_miniaod", q(M_TRK)), ("atlas", q(A_KIDS)), ("cms_aod", q(C_BREM)),
+    ("atlas", q(A_PT, [XMD])), ("atlas", q(A_PT2, [XMD])), ("cms_aod", q(C_PT, [XMD])),
     ("atlas", q(A_PT, [SCRIPT2])),  # depends on s1 that only an earlier query sent: must fail
     ("atlas", q(A_XMD, [XMD]) + " "),  # trailing blank = do NOT register the extended metadata type first: must fail in a fresh process
 ]
@@ -178,8 +182,12 @@ def _do_translate(state, backend, text, executor, bad_outdir, xmd):
     if exe is None:
         exe = make_executor(backend)
         state[("exe", backend)] = exe
-    if xmd:
+        state[("reg", backend)] = False
+    # the extended metadata type is the caller's configuration of an executor: registered once, when first needed
+    if xmd and not state[("reg", backend)]:
         exe.add_extended_md({"vf_docker": VfDocker("default/image:0")})
+        state[("reg", backend)] = True
+    registered = state[("reg", backend)]
     out = tempfile.mkdtemp(prefix="vf_c07_")
     target = os.path.join(out, "missing", "dir") if bad_outdir else out
     msgs = []
@@ -196,9 +204,9 @@ def _do_translate(state, backend, text, executor, bad_outdir, xmd):
         files = {fn: open(os.path.join(target, fn)).read() for fn in info.all_filenames}
         found = [getattr(x, "image", None) for x in exe.extended_md("vf_docker")]
         return {"ok": True, "files": files, "tree": getattr(info.result_rep, "treename", None), "file": getattr(info.result_rep, "filename", None),
-                "warnings": [m for m in msgs if "assuming" in m], "xmd": found}
+                "warnings": [m for m in msgs if "assuming" in m], "xmd": found, "registered": registered}
     except Exception as e:
-        return {"ok": False, "exc": type(e).__name__, "msg": str(e)[:200]}
+        return {"ok": False, "exc": type(e).__name__, "msg": str(e)[:200], "registered": registered}
     finally:
         logging.getLogger().removeHandler(h)
         shutil.rmtree(out, ignore_errors=True)
@@ -305,7 +313,7 @@ class History(RuleBasedStateMachine):
     @rule(step=st.sampled_from(STEP_POOL), executor=st.sampled_from(["new", "same", "same"]), bad_outdir=st.integers(0, 5).map(lambda x: x == 0))
     def translate(self, step, executor, bad_outdir):
         label, backend, text, declares, fails = step
-        xmd = label == "extended-md"
+        xmd = label.startswith("extended-md")
         r = self.child.call({"backend": backend, "text": text, "executor": executor, "bad_outdir": bad_outdir, "xmd": xmd})
         if r.get("exc") == "HARNESS":
             raise RuntimeError("harness failure in child: " + r["msg"])
@@ -340,7 +348,8 @@ class History(RuleBasedStateMachine):
         got = self.child.call({"backend": backend, "text": text, "executor": executor, "xmd": xmd})
         if got.get("exc") == "HARNESS":
             raise RuntimeError("harness failure in child: " + got["msg"])
-        base = baseline(backend, text, xmd)
+        # the fresh process configures its executor as the one used here is configured
+        base = baseline(backend, text, got.get("registered", xmd))
         self.probes += 1
         stats: Stats = _current["stats"]
         nt = len(self.steps) >= 2 and any(s["declares"] for s in self.steps) and any(s["failed"] for s in self.steps)
@@ -426,6 +435,6 @@ def replay(case):
         got = c.call({"backend": p["backend"], "text": p["text"], "executor": p["executor"], "xmd": p.get("xmd", False)})
     finally:
         c.close()
-    base = baseline(p["backend"], p["text"], p.get("xmd", False))
+    base = baseline(p["backend"], p["text"], got.get("registered", p.get("xmd", False)))
     d = compare(base, got)
     return [{"key": "leak", "what": d}] if d else []
